@@ -95,6 +95,7 @@ fn main() {
                 let m = parse_flat(&args[i + 1]);
                 if m.contains_key("stale_output") { std::env::set_var("VERIF_STALE_OUTPUT", "1"); }
                 if let Some(k) = m.get("input_kind") { std::env::set_var("VERIF_INPUT_KIND", k); }
+                if let Some(k) = m.get("ids") { std::env::set_var("VERIF_IDS", k); }
                 o.input = Some(m); i += 1;
             }
             _ => {}
